@@ -222,13 +222,17 @@ class PropertyDescriptor(Symbol):
         :param obj: The owner instance.
         :return: The value with a monitored container-type if it is iterable, otherwise the value itself.
         """
-        if self.is_iterable and not isinstance(value, MonitoredContainer):
-            try:
-                monitored_type = monitored_type_map[type(value)]
-            except KeyError:
-                raise UnMonitoredContainerTypeForDescriptor(
-                    self.domain, self.wrapped_field.name, type(value)
-                )
+        if self.is_iterable:
+            if isinstance(value, MonitoredContainer):
+                # the container of another field or instance: this field gets its own
+                monitored_type = type(value)
+            else:
+                try:
+                    monitored_type = monitored_type_map[type(value)]
+                except KeyError:
+                    raise UnMonitoredContainerTypeForDescriptor(
+                        self.domain, self.wrapped_field.name, type(value)
+                    )
             monitored_value = monitored_type(descriptor=self)
             for v in make_list(value):
                 monitored_value._add_item(v, inferred=False)
